@@ -463,20 +463,25 @@ func hasErr(ks []lkind) bool {
 
 // sliceBound renders the lower bound of x[lo:] as a Nat and registers the check lo ≤ len(x).
 func (t *loopTr) sliceBound(lo ast.Expr, list string) string {
+	return t.sliceBoundLen(lo, list+".length")
+}
+
+// sliceBoundLen is sliceBound with the length (a Nat text) the bound is checked against.
+func (t *loopTr) sliceBoundLen(lo ast.Expr, length string) string {
 	if tv := t.typeOf(lo); tv.Value != nil {
 		c := constant.ToInt(tv.Value)
 		if c.Kind() != constant.Int || constant.Sign(c) < 0 {
 			t.fail(lo, "bad constant slice bound")
 		}
-		t.addCheck(fmt.Sprintf("(decide (%s ≤ %s.length))", c.ExactString(), list))
+		t.addCheck(fmt.Sprintf("(decide (%s ≤ %s))", c.ExactString(), length))
 		return c.ExactString()
 	}
 	e, ek := t.expr(lo)
 	switch ek {
 	case kInt:
-		t.addCheck(fmt.Sprintf("(Go.sliceFromS %s %s.length)", e, list))
+		t.addCheck(fmt.Sprintf("(Go.sliceFromS %s %s)", e, length))
 	case kUint:
-		t.addCheck(fmt.Sprintf("(Go.sliceFromU %s %s.length)", e, list))
+		t.addCheck(fmt.Sprintf("(Go.sliceFromU %s %s)", e, length))
 	default:
 		t.fail(lo, "slice bound of type %s", t.typeOf(lo).Type)
 	}
@@ -509,6 +514,11 @@ func (t *loopTr) argValue(a ast.Expr) (string, lkind) {
 	if !k.isSlice() && k != kString && k != kMarshs {
 		t.fail(a, "slice expression on %s", k.lean())
 	}
+	// the length the bounds are checked against: that of the list, or N for an array variable [N]T (loops_arr.go)
+	length := list + ".length"
+	if n, isArr := t.arrayVarLen(se.X); isArr {
+		length = n
+	}
 	if se.High != nil && k != kString {
 		t.noteCapSensitive(se.X)
 		if o := t.varOf(se.X); o != nil && t.spareCap[o] {
@@ -533,22 +543,22 @@ func (t *loopTr) argValue(a ast.Expr) (string, lkind) {
 	case se.Low == nil && se.High == nil:
 		return list, k
 	case se.High == nil:
-		n := t.sliceBound(se.Low, list)
+		n := t.sliceBoundLen(se.Low, length)
 		return fmt.Sprintf("(%s.drop %s)", list, n), k
 	case se.Low == nil:
 		if tv := t.typeOf(se.High); tv.Value == nil && t.kindOf(tv.Type, se.High) == kUint {
 			// x[:hi] with a uint bound: hi ≤ len(x), compared unsigned
 			h, _ := t.expr(se.High)
-			t.addCheck(fmt.Sprintf("(Go.sliceFromU %s %s.length)", h, list))
+			t.addCheck(fmt.Sprintf("(Go.sliceFromU %s %s)", h, length))
 			return fmt.Sprintf("(%s.take %s.toNat)", list, h), k
 		}
 		hn, hb := bound(se.High)
-		t.addCheck(fmt.Sprintf("(Go.sliceOK 0#64 %s %s.length)", hb, list))
+		t.addCheck(fmt.Sprintf("(Go.sliceOK 0#64 %s %s)", hb, length))
 		return fmt.Sprintf("(%s.take %s)", list, hn), k
 	}
 	ln, lb := bound(se.Low)
 	hn, hb := bound(se.High)
-	t.addCheck(fmt.Sprintf("(Go.sliceOK %s %s %s.length)", lb, hb, list))
+	t.addCheck(fmt.Sprintf("(Go.sliceOK %s %s %s)", lb, hb, length))
 	return fmt.Sprintf("((%s.drop %s).take (%s - %s))", list, ln, hn, ln), k
 }
 
